@@ -79,6 +79,14 @@ def pair_worker(task):
     Q = U.QUANTITIES
     n = 0
     bad = []
+    # unit names that several quantity classes use with different factors
+    # ('rad' of Angle and of AbsorbedDose, 'A' ampere and angstrom, ...)
+    homonyms = {}
+    for qc in Q:
+        for u_, f_ in qc._units.items():
+            homonyms.setdefault(u_, []).append((qc, f_))
+    homonyms = {u_: v for u_, v in homonyms.items()
+                if len(set(f_ for _, f_ in v)) > 1}
     for a in Q[lo:hi]:
         if a.__name__ not in REF:
             bad.append(("unknown-quantity-class", a.__name__))
@@ -119,6 +127,37 @@ def pair_worker(task):
                     if float(r) != val and not (math.isnan(val)):
                         bad.append(("si-value", a.__name__, name, b.__name__,
                                     float(r), val, (va, ua, vb, ub)))
+                    # the same operation right after a quantity of another
+                    # class was made with a unit name that the result class
+                    # uses too (with another factor)
+                    if isinstance(r, U.Quantity):
+                        for u_ in (r.unit, type(r)._baseunit):
+                            for qc, f_ in homonyms.get(u_, ()):
+                                if qc is type(r):
+                                    continue
+                                n += 1
+                                try:
+                                    # (first another unit, so that this
+                                    # really is the latest unit looked up)
+                                    other = [k_ for k_ in qc._units
+                                             if k_ != u_]
+                                    if other:
+                                        qc(1.0, other[0])
+                                    qc(3.0, u_)
+                                    r2 = op(x, y)
+                                except Exception as ex:  # noqa
+                                    bad.append(("raised-after-homonym",
+                                                a.__name__, name, b.__name__,
+                                                qc.__name__, u_,
+                                                type(ex).__name__))
+                                    continue
+                                if type(r2) is not type(r) or \
+                                        float(r2) != float(r) or \
+                                        r2.unit != r.unit:
+                                    bad.append((
+                                        "result-depends-on-the-last-unit-used",
+                                        a.__name__, name, b.__name__,
+                                        qc.__name__, u_, float(r2), float(r)))
                     # operands untouched
                     if float(x) != xs or float(y) != ys or \
                             sig_of(x, SI) != rsig(a.__name__) or \
